@@ -710,7 +710,28 @@ func (ex *exec) callNoContract(st *State, x *ssa.Call, fn *ssa.Function, key str
 		vc.vals[x] = Val{T: "(err.msg " + args[0].T + ")", S: SStr, Typ: strT}
 		return
 	}
-	if !pure {
+	sortedInPlace := false
+	if (key == "sort.Sort" || key == "sort.Stable") && len(c.Args) == 1 {
+		// sort.Sort(T(slice)): the only memory the call can reach through Len/Less/Swap of a slice-backed
+		// sort.Interface is the element window of that slice; it ends up holding some rearrangement (modelled as
+		// arbitrary values of the element type). Assumed for every named slice type implementing sort.Interface.
+		if mi, ok := c.Args[0].(*ssa.MakeInterface); ok {
+			if sl, ok := mi.X.Type().Underlying().(*types.Slice); ok {
+				base := ex.val(mi.X)
+				hi := vc.elemHeap(sl.Elem())
+				h := vc.heapGet(st, hi)
+				arr := vc.freshConst("hv_sorted", "(Array Int "+hi.valSort+")")
+				inv := vc.sorts.typeInv(sl.Elem(), "(select "+arr+" i!)", st.nextRef)
+				old := "(select " + h + " (sarr " + base.T + "))"
+				vc.addLine(fmt.Sprintf("(assert (forall ((i! Int)) (! (and %s (=> (not (and (<= (soff %s) i!) (< i! (+ (soff %s) (slen %s))))) (= (select %s i!) (select %s i!)))) :pattern ((select %s i!)))))",
+					inv, base.T, base.T, base.T, arr, old, arr))
+				vc.heapSet(st, hi, "(store "+h+" (sarr "+base.T+") "+arr+")")
+				vc.eng.noteAssumption("sort.Sort on a slice-backed sort.Interface modelled as an arbitrary rearrangement of that slice's elements (writes nothing else)")
+				sortedInPlace = true
+			}
+		}
+	}
+	if !pure && !sortedInPlace {
 		what := key
 		if what == "" {
 			what = "dynamic call " + c.Value.Name()
